@@ -25,6 +25,17 @@ Oracle:
   * no exception reaches the application or the transport except the documented
     `RuntimeError` of `finish()` after the connection was lost.
 
+Depth extensions (all inside the statement's "any request sequence, response timing, transport
+pause/resume and connection-loss point"): responses 204/304/HEAD and `Expect: 100-continue` requests on
+keep-alive connections; a response finished re-entrantly from inside the previous request's notifyFinish
+callback; the application calling request.loseConnection() (server-initiated loss) from process() or
+later; notifyFinish Deferreds whose own chain raises, is paused, or returns an unfired Deferred; responses
+written by a push producer driven by scheduler steps and transport resumeProducing, finishing from inside
+resumeProducing or from inside stopProducing (which a TCP transport calls, after marking itself
+disconnected, just before connectionLost).  An application that raises (Exception or BaseException-only
+class) inside process() is generated too, but the statement is silent about it: such runs are counted and
+left unjudged after the raise.
+
 Guards: notifyFinish() is never called on a request that already finished or whose connection is
 gone (such a Deferred never fires; outside the statement); requests are syntactically valid
 (parsing is C18/C19's business); after the server itself calls loseConnection() the harness
@@ -51,29 +62,88 @@ ASSUMPTIONS = ["trusted base: netsim.SimTransport (write after loss is dropped; 
 SHARDS = {"quick": 4, "thorough": 16}
 FLOORS = {"runs": 5000, "process_events": 5000, "notify_fired_ok": 2000, "notify_fired_fail": 2000, "loss_while_in_progress": 1000,
           "responses_on_wire_checked": 3000, "pipelined_handover_inside_finish": 300, "pause_ops": 500, "finish_after_loss_raised": 100,
-          "process_after_stray_blank_line": 500, "losses_inside_loseconnection": 100}
+          "process_after_stray_blank_line": 500, "losses_inside_loseconnection": 100, "finish_from_notify_callback": 100,
+          "app_loseconnection_calls": 200, "producer_requests": 1000, "producer_stop_calls": 300, "finish_inside_stopproducing": 100,
+          "finish_inside_resumeproducing": 50, "producer_resumed_by_transport": 100, "notify_kind_raises": 500, "notify_kind_paused": 500,
+          "notify_kind_chained": 500, "bodiless_responses_on_wire_checked": 500, "expect_100_requests_processed": 300,
+          "runs_unjudged_after_app_exception": 100}
 READY = True
+
+
+class AppError(Exception):
+    """Raised on purpose by the harness application inside process()."""
+
+
+class AppAbort(BaseException):
+    """Same, but not an Exception subclass."""
 
 
 class Plan:
     def __init__(self, rng):
-        self.mode = rng.choice(["now", "now", "later", "later", "later", "never"])
+        self.mode = rng.choice(["now", "now", "later", "later", "later", "never", "producer", "producer"])
         self.delay = rng.randint(1, 4)
-        self.partial = self.mode != "now" and rng.random() < 0.4
+        self.partial = self.mode == "later" and rng.random() < 0.4
         self.n_notify_at_process = rng.choice([0, 1, 1, 2])
         self.use_cl = rng.random() < 0.4
-        self.pieces = rng.randint(0, 3)
+        self.pieces = rng.randint(1, 3) if self.mode == "producer" else rng.randint(0, 3)
         self.finish_even_if_lost = rng.random() < 0.5
+        self.code = rng.choice([200, 200, 200, 200, 204, 304, 404])
+        self.trigger = "prev_notify" if self.mode == "later" and rng.random() < 0.35 else "steps"
+        r = rng.random()
+        self.app_lose = None if self.mode == "producer" or r > 0.08 else ("process" if r < 0.04 else "step")
+        r = rng.random()
+        self.raises = None if r > 0.03 else ("exc" if r < 0.015 else "base")
+        self.notify_kinds = [rng.choice(["plain", "plain", "raises", "paused", "chained"]) for _ in range(3)]
+        self.finish_in_stop = rng.random() < 0.5
 
     def as_dict(self):
         return dict(self.__dict__)
+
+
+class PushProducer:
+    """Streaming producer the application registers on its request; writes one piece per scheduler step and
+    per resumeProducing(), then unregisters and finishes (re-entrantly from wherever it was driven)."""
+
+    def __init__(self, world, app):
+        self.world, self.app = world, app
+        self.paused = False
+        self.stopped = False
+
+    def produce(self, where):
+        w, app = self.world, self.app
+        if self.stopped or app["finish_called"]:
+            return
+        if app["pieces_left"]:
+            try:
+                w.write_headers_once(app)
+                w.write(app, app["pieces_left"].pop(0))
+                w.log.append(("producer-wrote", app["k"], where))
+            except Exception as e:
+                w.bad("exception-to-application", "write() from a producer raised", k=app["k"], error=repr(e))
+        if not app["pieces_left"]:
+            w.do_finish(app, where)
+
+    def resumeProducing(self):
+        self.paused = False
+        self.world.ctx.count("producer_resumed_by_transport")
+        self.produce("resumeProducing")
+
+    def pauseProducing(self):
+        self.paused = True
+
+    def stopProducing(self):
+        self.world.ctx.count("producer_stop_calls")
+        self.world.log.append(("producer-stop", self.app["k"]))
+        if self.app["plan"].finish_in_stop and not self.app["finish_called"]:
+            self.world.do_finish(self.app, "stopProducing")
+        self.stopped = True
 
 
 def _default_plan():
     import random
 
     p = Plan(random.Random(0))
-    p.mode, p.n_notify_at_process = "now", 1
+    p.mode, p.n_notify_at_process, p.app_lose, p.raises, p.trigger, p.partial = "now", 1, None, None, "steps", False
     return p
 
 
@@ -98,6 +168,8 @@ def gen_schedule(rng):
             lines.append(b"Connection: close")
         if method == b"POST":
             body = b"body-of-%d;" % k * rng.randint(0, 4)
+            if version == b"HTTP/1.1" and rng.random() < 0.25:
+                lines.append(b"Expect: 100-continue")  # interim response, then a body that may be empty
             if version == b"HTTP/1.1" and rng.random() < 0.5:
                 lines.append(b"Transfer-Encoding: chunked")
                 payload = refhttp.encode_chunked(rng, body, trailers=False)
@@ -138,7 +210,10 @@ class World:
         self.log = []
         self.apps = []  # per processed request
         self.problems = []
-        self.lost = False
+        self.lost = False  # protocol.connectionLost delivered
+        self.losing = False
+        self.unjudged = None  # set when the application raised on purpose (statement silent)
+        self.paused_deferreds = []
         self.server = c18.Server("channel", responder=self.on_process, defer=False, sync_close=sync_close)
         if sync_close:  # the server's own loseConnection() reports the loss re-entrantly, through our bookkeeping
             self.server.transport.on_sync_close = self._sync_close
@@ -148,7 +223,8 @@ class World:
         self.lose(clean=True)
 
     def bad(self, key, what, **detail):
-        self.problems.append((key, what, detail))
+        if self.unjudged is None:
+            self.problems.append((key, what, detail))
 
     # ---- application
     def on_process(self, server, request, rec):
@@ -158,12 +234,15 @@ class World:
             k = -1
         plan = self.plans[k] if 0 <= k < len(self.plans) else _default_plan()
         app = {"k": k, "request": request, "plan": plan, "deferreds": [], "finish_called": False, "finished": False, "finish_raised": None,
-               "countdown": plan.delay, "wrote_partial": False, "written": b"", "head": rec["method"] == b"HEAD"}
+               "countdown": plan.delay, "wrote_headers": False, "wrote_partial": False, "written": b"", "head": rec["method"] == b"HEAD",
+               "pieces_left": body_pieces(k, plan), "offline": False, "producer": None, "lose_called": False}
         inside = [a["k"] for a in self.apps if a["finish_called"] and not a["finished"] and a["finish_raised"] is None]
         self.log.append(("process", k, {"inside_finish_of": inside}))
         self.ctx.count("process_events")
         if 0 <= k < len(self.reqs) and self.reqs[k].get("stray_crlf_before"):
             self.ctx.count("process_after_stray_blank_line")
+        if b"Expect: 100-continue" in (self.reqs[k]["bytes"] if 0 <= k < len(self.reqs) else b""):
+            self.ctx.count("expect_100_requests_processed")
         if inside:
             self.ctx.count("pipelined_handover_inside_finish")
         if self.lost:
@@ -177,84 +256,163 @@ class World:
         self.apps.append(app)
         for _ in range(plan.n_notify_at_process):
             self.take_notify(app)
-        if plan.mode == "now":
-            self.do_finish(app)
+        if plan.raises and self.unjudged is None:
+            self.unjudged = "application raised %s in process(%d)" % (plan.raises, k)
+            self.log.append(("app-raises", k, plan.raises))
+            raise (AppError if plan.raises == "exc" else AppAbort)("injected by the harness application")
+        if plan.app_lose == "process":
+            self.app_lose(app)
+        if plan.mode == "producer":
+            app["producer"] = PushProducer(self, app)
+            self.ctx.count("producer_requests")
+            try:
+                request.registerProducer(app["producer"], True)
+            except Exception as e:
+                self.bad("exception-to-application", "registerProducer() raised", k=k, error="%s: %s" % (type(e).__name__, e))
+                app["producer"] = None
+                app["plan"] = _default_plan()
+                self.do_finish(app, "process")
+        elif plan.mode == "now":
+            self.do_finish(app, "process")
+
+    def app_lose(self, app):
+        if app["lose_called"] or self.lost:
+            return
+        app["lose_called"] = True
+        self.ctx.count("app_loseconnection_calls")
+        self.log.append(("app-loseConnection", app["k"]))
+        try:
+            app["request"].loseConnection()
+        except Exception as e:
+            self.bad("exception-to-application", "request.loseConnection() raised", k=app["k"], error="%s: %s" % (type(e).__name__, e))
 
     def take_notify(self, app):
+        from twisted.internet import defer
+
         j = len(app["deferreds"])
-        rec = {"fired": [], "taken_at": len(self.log)}
+        kind = app["plan"].notify_kinds[j % 3]
+        rec = {"fired": [], "taken_at": len(self.log), "kind": kind}
         app["deferreds"].append(rec)
         try:
             d = app["request"].notifyFinish()
         except Exception as e:
             self.bad("exception-to-application", "notifyFinish() raised", error="%s: %s" % (type(e).__name__, e))
             return
-        self.log.append(("notify-taken", app["k"], j))
+        self.log.append(("notify-taken", app["k"], j, kind))
+        self.ctx.count("notify_kind_" + kind)
 
         def ok(v, app=app, j=j, rec=rec):
             rec["fired"].append(("ok", repr(v), len(self.log)))
             self.log.append(("notify-fired", app["k"], j, "ok", repr(v)))
             self.ctx.count("notify_fired_ok")
+            self.on_notify_fired(app)
 
         def fail(f, app=app, j=j, rec=rec):
             rec["fired"].append(("fail", f.type.__name__, len(self.log)))
             self.log.append(("notify-fired", app["k"], j, "fail", f.type.__name__))
             self.ctx.count("notify_fired_fail")
+            self.on_notify_fired(app)
 
         d.addCallbacks(ok, fail)
+        # what the application does with its Deferred must not matter to the others
+        if kind == "raises":
+            d.addCallback(lambda _: 1 // 0)
+            d.addErrback(lambda f: None)
+        elif kind == "chained":
+            d.addCallback(lambda _: defer.Deferred())
+        elif kind == "paused":
+            d.pause()
+            self.paused_deferreds.append(d)
+
+    def on_notify_fired(self, app):
+        """Response timing: the next request's answer may be triggered by this notification (re-entrantly)."""
+        k = app["k"]
+        for nxt in self.apps:
+            if nxt["k"] == k + 1 and nxt["plan"].mode == "later" and nxt["plan"].trigger == "prev_notify" and not nxt["finish_called"]:
+                if self.lost and not nxt["plan"].finish_even_if_lost:
+                    return
+                self.ctx.count("finish_from_notify_callback")
+                self.do_finish(nxt, "notify-callback")
+
+    def write_headers_once(self, app):
+        if not app["wrote_headers"]:
+            app["wrote_headers"] = True
+            request, plan = app["request"], app["plan"]
+            request.setResponseCode(plan.code)
+            request.setHeader(b"X-Id", b"%d" % app["k"])
+            if plan.use_cl:
+                request.setHeader(b"Content-Length", b"%d" % sum(len(p) for p in body_pieces(app["k"], plan)))
 
     def write(self, app, data):
+        accepted = not self.server.transport.disconnected
         app["request"].write(data)
-        if not self.lost and not app["head"]:
+        if accepted and not app["head"] and app["plan"].code not in (204, 304):
             app["written"] += data
 
-    def do_finish(self, app):
-        k, plan, request = app["k"], app["plan"], app["request"]
-        pieces = body_pieces(k, plan)
+    def do_finish(self, app, where="step"):
+        if app["finish_called"]:
+            return
+        k, request = app["k"], app["request"]
         try:
-            if not app["wrote_partial"]:
-                request.setHeader(b"X-Id", b"%d" % k)
-                if plan.use_cl:
-                    request.setHeader(b"Content-Length", b"%d" % sum(len(p) for p in pieces))
-            for p in pieces[1:] if app["wrote_partial"] else pieces:
-                self.write(app, p)
+            self.write_headers_once(app)
+            while app["pieces_left"]:
+                self.write(app, app["pieces_left"].pop(0))
+            if app["producer"] is not None and not self.lost:
+                # (after connectionLost the application must not touch the producer API any more:
+                # request.unregisterProducer() then fails on the cleared channel; outside the statement)
+                request.unregisterProducer()
             app["finish_called"] = True
-            self.log.append(("finish-call", k))
+            app["offline"] = bool(self.server.transport.disconnected)
+            self.log.append(("finish-call", k, where))
+            if where == "stopProducing":
+                self.ctx.count("finish_inside_stopproducing")
+            elif where == "resumeProducing":
+                self.ctx.count("finish_inside_resumeproducing")
             request.finish()
             app["finished"] = True
             self.log.append(("finish-return", k))
-        except RuntimeError as e:
+        except BaseException as e:
+            if isinstance(e, (AppError, AppAbort)):
+                app["finished"] = True  # finish(k) itself completed; the next request's process() raised beneath it
+                self.log.append(("finish-propagated-app-exception", k))
+                return
+            if not isinstance(e, Exception):
+                raise
             app["finish_raised"] = repr(e)
             self.log.append(("finish-raised", k, repr(e)[:80]))
-            if self.lost and "connection was lost" in str(e):
+            if isinstance(e, RuntimeError) and self.lost and "connection was lost" in str(e):
                 self.ctx.count("finish_after_loss_raised")  # the documented contract
             else:
-                self.bad("exception-to-application", "finish()/write() raised RuntimeError while the connection was up", k=k, error=repr(e))
-        except Exception as e:
-            app["finish_raised"] = repr(e)
-            self.log.append(("finish-raised", k, repr(e)[:80]))
-            self.bad("exception-to-application", "finish()/write() raised %s" % type(e).__name__, k=k, error=repr(e))
+                self.bad("exception-to-application", "finish()/write() raised %s while the connection was up" % type(e).__name__, k=k, error=repr(e), where=where)
 
     def step(self):
         for app in list(self.apps):
-            if app["finish_called"] or app["plan"].mode != "later":
+            plan = app["plan"]
+            if app["finish_called"]:
                 continue
-            if self.lost and not app["plan"].finish_even_if_lost:
+            if plan.app_lose == "step" and not app["lose_called"] and not self.lost:
+                self.app_lose(app)
+            if self.lost and not plan.finish_even_if_lost:
+                continue
+            if plan.mode == "producer" and app["producer"] is not None:
+                if not app["producer"].paused and not app["producer"].stopped:
+                    app["producer"].produce("step")
+                elif self.lost and app["producer"].stopped:
+                    self.do_finish(app, "step")  # after the loss: must raise the documented RuntimeError
+                continue
+            if plan.mode != "later":
                 continue
             app["countdown"] -= 1
-            if app["plan"].partial and not app["wrote_partial"] and app["countdown"] >= 1:
-                pieces = body_pieces(app["k"], app["plan"])
+            if plan.partial and not app["wrote_partial"] and app["countdown"] >= 1:
                 try:
-                    app["request"].setHeader(b"X-Id", b"%d" % app["k"])
-                    if app["plan"].use_cl:
-                        app["request"].setHeader(b"Content-Length", b"%d" % sum(len(p) for p in pieces))
-                    self.write(app, pieces[0] if pieces else b"")
+                    self.write_headers_once(app)
+                    self.write(app, app["pieces_left"].pop(0) if app["pieces_left"] else b"")
                     app["wrote_partial"] = True
                     self.log.append(("partial-write", app["k"]))
                 except Exception as e:
                     self.bad("exception-to-application", "write() raised", k=app["k"], error=repr(e))
             if app["countdown"] <= 0:
-                self.do_finish(app)
+                self.do_finish(app, "step")
         srv = self.server
         if srv.transport.disconnecting and not self.lost and srv.transport.producer is None:
             self.lose(clean=True)  # complete the close the server asked for
@@ -270,10 +428,27 @@ class World:
         from twisted.internet import error
         from twisted.python import failure
 
-        if self.lost:
+        if self.lost or self.losing:
             return
+        self.losing = True
         if any(not a["finish_called"] for a in self.apps):
             self.ctx.count("loss_while_in_progress")
+        t = self.server.transport
+        # what tcp.Connection.connectionLost does: mark the transport dead, stop its producer, then tell the protocol
+        t.disconnected = True
+        t.connected = False
+        if t.producer is not None:
+            self.log.append(("transport-stops-producer",))
+            prod, t.producer = t.producer, None
+            try:
+                prod.stopProducing()
+            except BaseException as e:
+                if isinstance(e, (AppError, AppAbort)):
+                    pass
+                elif isinstance(e, Exception):
+                    self.bad("exception-from-channel", "stopProducing raised", error="%s: %s" % (type(e).__name__, e))
+                else:
+                    raise
         self.lost = True
         self.log.append(("lost", "clean" if clean else "injected"))
         reason = failure.Failure(error.ConnectionDone() if clean else error.ConnectionLost("injected"))
@@ -304,15 +479,33 @@ class World:
                         srv._drain_held()
                 elif kind == "notify":
                     self.extra_notify()
-            except Exception as e:
-                self.bad("exception-from-channel", "operation %r raised" % (kind,), error="%s: %s" % (type(e).__name__, e), op_index=i)
+            except (Exception, AppAbort) as e:
+                if isinstance(e, (AppError, AppAbort)):
+                    srv.exception = None
+                    self.lose()  # a reactor logs the exception and drops the connection
+                else:
+                    self.bad("exception-from-channel", "operation %r raised" % (kind,), error="%s: %s" % (type(e).__name__, e), op_index=i)
             if srv.exception:
-                self.bad("exception-from-channel", "dataReceived raised", error=srv.exception, op_index=i)
+                if self.unjudged is not None:
+                    self.lose()
+                else:
+                    self.bad("exception-from-channel", "dataReceived raised", error=srv.exception, op_index=i)
                 srv.exception = None
         self.lose()  # the boundary after the last operation
         # requests that the plan finishes even after the loss get their chance (finish() must raise RuntimeError)
         for _ in range(5):
-            self.step()
+            try:
+                self.step()
+            except (AppError, AppAbort):
+                pass
+        for d in self.paused_deferreds:
+            d.unpause()
+        if self.unjudged is not None:
+            self.ctx.count("runs_unjudged_after_app_exception")
+            stranded = sum(1 for a in self.apps for r in a["deferreds"] if not r["fired"])
+            if stranded:
+                self.ctx.count("unjudged_notify_never_fired_after_app_exception", stranded)
+            return
         self.judge()
 
     # ---- verdict
@@ -328,22 +521,25 @@ class World:
                 if len(fired) != 1:
                     self.bad("notifyfinish-fired-%d-times" % len(fired) if len(fired) < 3 else "notifyfinish-fired-many-times",
                              "a notifyFinish Deferred of request %d fired %d times (connection is gone, request %s)" % (k, len(fired), "finished" if finished_first else "not finished"),
-                             k=k, j=j, fired=fired, finished_first=finished_first)
+                             k=k, j=j, fired=fired, finished_first=finished_first, kind=rec["kind"])
                     continue
                 how, val, at = fired[0]
+                timed = rec["kind"] != "paused"  # a paused Deferred runs its callbacks when the harness unpauses it
                 if finished_first:
                     if how != "ok" or val != "None":
                         self.bad("notifyfinish-wrong-result", "response finished before the loss but the Deferred did not fire with None", k=k, j=j, fired=fired)
-                    elif at <= fin:
+                    elif timed and at <= fin:
                         self.bad("notifyfinish-fired-before-finish", "Deferred fired with None before finish() was called", k=k, j=j, fired=fired)
                 else:
                     if how != "fail":
                         self.bad("notifyfinish-wrong-result", "connection lost before the response finished but the Deferred fired with a result", k=k, j=j, fired=fired)
-                    elif at < lost_at:
+                    elif timed and at < lost_at:
                         self.bad("notifyfinish-failed-before-loss", "Deferred failed before the connection was lost", k=k, j=j, fired=fired)
         # wire
+        import re
+
         out = bytes(self.server.transport.written)
-        done = [a for a in self.apps if a["finished"]]
+        done_online = [a for a in self.apps if a["finished"] and not a["offline"]]
         heads = [a["head"] for a in self.apps]
         resps, left = refhttp.read_responses(out, heads)
         finals = [r for r in resps if (r.code or b"")[:1] != b"1"]
@@ -353,28 +549,28 @@ class World:
                 self.bad("extra-response-on-wire", "more responses on the wire than requests handed to the application", index=i, at=out[r.start:r.start + 120])
                 break
             a = self.apps[i]
-            if not r.complete or (r.framing == "close" and not a["finished"]):
-                # partial response of the request in progress: may only carry that request's id
-                import re
-
+            if not r.complete or (r.framing == "close" and not (a["finished"] and not a["offline"])):
+                # partial response of the request in progress (or of one finished after the transport died): only its id
                 tail = out[r.start:]
                 ids = set(int(x) for x in re.findall(rb"\[(\d+)\]", tail)) | set(int(x) for x in re.findall(rb"X-Id: (\d+)", tail))
-                if not ids <= {a["k"]} or a["finished"]:
+                if not ids <= {a["k"]} or (a["finished"] and not a["offline"]):
                     self.bad("responses-interleaved-or-out-of-order", "bytes after the last complete response are not a partial response of the request in progress",
                              ids=sorted(ids), in_progress=a["k"], finished=a["finished"], tail=tail[:200], problem=r.problem)
                 break
             self.ctx.count("responses_on_wire_checked")
+            if a["plan"].code in (204, 304) or a["head"]:
+                self.ctx.count("bodiless_responses_on_wire_checked")
             xid = r.header_map().get(b"x-id")
-            if xid != [b"%d" % a["k"]] or r.body != a["written"]:
+            if xid != [b"%d" % a["k"]] or r.body != a["written"] or r.code != b"%d" % a["plan"].code:
                 self.bad("responses-interleaved-or-out-of-order", "response %d on the wire is not the response written for request %d" % (i, a["k"]),
-                         index=i, x_id=xid, body=r.body[:120], expected_body=a["written"][:120])
+                         index=i, x_id=xid, code=r.code, body=r.body[:120], expected_body=a["written"][:120], expected_code=a["plan"].code)
                 break
             n_complete += 1
         else:
             if left != len(out):
                 self.bad("responses-interleaved-or-out-of-order", "unparsed bytes after the responses", tail=out[left:left + 200])
-        if n_complete < len(done) and not any(p[0].startswith("responses-") or p[0].startswith("extra-") for p in self.problems):
-            self.bad("finished-response-incomplete-on-wire", "fewer complete responses on the wire than finished requests", finished=[a["k"] for a in done], complete=n_complete)
+        if n_complete < len(done_online) and not any(p[0].startswith("responses-") or p[0].startswith("extra-") for p in self.problems):
+            self.bad("finished-response-incomplete-on-wire", "fewer complete responses on the wire than finished requests", finished=[a["k"] for a in done_online], complete=n_complete)
         self.ctx.count("bytes_on_wire", len(out))
 
 
@@ -387,7 +583,7 @@ def run_one(ctx, reqs, ops, plans, loss_at, cap, case_index=None, sync_close=Fal
         w.server.cleanup()
     for e in cap.events[mark:]:
         f = e.get("log_failure")
-        if f is not None:
+        if f is not None and not (w.unjudged is not None or f.check(AppError, AppAbort)):
             w.bad("logged-failure", "a failure was logged during the run: %s" % (f.type.__name__ if f.type else "?"), error=f.getErrorMessage()[:300])
     ctx.evaluated()
     ctx.count("runs")
@@ -419,7 +615,7 @@ def run_schedule(ctx, i, only_loss_at=None):
                 break
         mark = len(cap.events)
         del w.server
-    late = [e for e in cap.events[mark:] if e.get("log_failure") is not None]
+    late = [e for e in cap.events[mark:] if e.get("log_failure") is not None and not e["log_failure"].check(AppError, AppAbort, ZeroDivisionError)]
     if late:
         f = late[0]["log_failure"]
         ctx.violation("logged-failure", "a failure was logged after a schedule (garbage-collected Deferred?)",
